@@ -201,6 +201,11 @@ def check(ctx: Ctx) -> None:
     check_registry(ctx)
     check_processing(ctx)
     check_decorators(ctx)
+    # R5.6 (= R14.1/R14.2): the first-sight flag that separates RESUME from NOOP: `initial = noticed_by_listing and not fully_handled_once`, both monotone,
+    # the latter set exactly when a cycle closes (done or nothing to do)
+    from . import C14
+    C14.check_flags(ctx, rule='R5.6')
+    C14.check_initial_flow(ctx, rule='R5.6')
 
 
 SPEC = PropSpec(
